@@ -135,6 +135,9 @@ type Op struct {
 	Frags    []*hx.Frag `json:"frags,omitempty"`
 	ID       string     `json:"id,omitempty"`    // event id (publish) / id (unsubscribe)
 	Event    int        `json:"event,omitempty"` // node of the published event
+	// ReuseOf > 0: this subscription request is not parsed afresh, the parsed request of the
+	// ReuseOf-th subscribe step (1-based) is resolved again (same selection, same id)
+	ReuseOf int `json:"reuse_of,omitempty"`
 }
 
 type c19Case struct {
@@ -166,6 +169,31 @@ func genCaseC19(rt *rapid.T) *c19Case {
 			op.FailAt = rapid.SliceOfNDistinct(rapid.IntRange(1, 4), 0, 2, rapid.ID[int]).Draw(rt, lab+"failPlan")
 			op.Sels, op.Frags = exec.GenSelection(rt, schema, "Event", exec.Profile{MaxDepth: rapid.IntRange(1, 3).Draw(rt, lab+"depth")}, lab+"sel")
 			op.Field = rapid.SampledFrom([]string{"watch", "listen"}).Draw(rt, lab+"field")
+			if subs > 1 && rapid.IntRange(0, 3).Draw(rt, lab+"reuse") == 0 {
+				// an application that keeps the parsed subscription request and resolves it once per client
+				op.ReuseOf = rapid.IntRange(1, subs-1).Draw(rt, lab+"reuseOf")
+				k := 0
+				for _, prev := range c.Ops {
+					if prev.Kind == "subscribe" {
+						if k++; k == op.ReuseOf {
+							for prev.ReuseOf > 0 { // (chains end at the step that parsed the request)
+								op.ReuseOf = prev.ReuseOf
+								kk := 0
+								for _, p2 := range c.Ops {
+									if p2.Kind == "subscribe" {
+										if kk++; kk == op.ReuseOf {
+											prev = p2
+											break
+										}
+									}
+								}
+							}
+							op.Pattern, op.Wildcard, op.Sels, op.Frags, op.Field = prev.Pattern, prev.Wildcard, prev.Sels, prev.Frags, prev.Field
+							break
+						}
+					}
+				}
+			}
 			c.Ops = append(c.Ops, op)
 		case "publish":
 			c.Ops = append(c.Ops, Op{Kind: kind, ID: rapid.SampledFrom(idPool).Draw(rt, lab+"eventID"),
@@ -202,6 +230,7 @@ func runHistory(cc *c19Case) (ds []hx.Discrepancy, traits map[string]bool, hist 
 		order    []int
 		pending  *hsub
 		hookHits int
+		exes     []*ggql.Executable // parsed request per subscribe step (nil for steps that reused one)
 	)
 	w.Hook = func(node int, field *ggql.Field, args map[string]interface{}) (interface{}, error, bool) {
 		if node != 1 || pending == nil {
@@ -261,7 +290,35 @@ func runHistory(cc *c19Case) (ds []hx.Discrepancy, traits map[string]bool, hist 
 			text := doc.Render(hx.Layout{Mode: "single"}).Text
 			pending = h
 			before := hookHits
-			res := w.Root.ResolveString(text, "S", nil)
+			var res map[string]interface{}
+			if op.ReuseOf > 0 && op.ReuseOf <= len(exes) && exes[op.ReuseOf-1] != nil {
+				traits["parsed-subscription-request-resolved-again"] = true
+				r2, rerr := w.Root.ResolveExecutable(exes[op.ReuseOf-1], "S", nil)
+				res = r2
+				if res == nil {
+					res = map[string]interface{}{}
+				}
+				if rerr != nil {
+					res["errors"] = ggql.FormErrorsResult(rerr)
+				}
+				exes = append(exes, nil)
+				text = fmt.Sprintf("(the request parsed by subscribe step %d, resolved again) %s", op.ReuseOf, text)
+			} else {
+				exe, perr := w.Root.ParseExecutableString(text)
+				if perr != nil {
+					fail("subscription request does not parse: %v\n%s", perr, text)
+					break
+				}
+				exes = append(exes, exe)
+				r2, rerr := w.Root.ResolveExecutable(exe, "S", nil)
+				res = r2
+				if res == nil {
+					res = map[string]interface{}{}
+				}
+				if rerr != nil {
+					res["errors"] = ggql.FormErrorsResult(rerr)
+				}
+			}
 			hist = append(hist, fmt.Sprintf("subscribe %v: %s", h, text))
 			if _, has := res["errors"]; has || hookHits != before+1 {
 				fail("subscription request was not registered cleanly: response %s (resolver invoked %d times)", hx.Show(hx.Norm(res)), hookHits-before)
